@@ -128,8 +128,16 @@ def prepare(cfg):
             N[slot] = len(VALS)
 
 
+IV = 'X&y'           # what ${iv} inside a static attribute value evaluates to
+
+
+def static_value(v):
+    """the text a static attribute shows when nothing dynamic targets it (its ${iv} evaluated and escaped)"""
+    return v if v is None else v.replace('${iv}', IV.replace('&', '&amp;'))
+
+
 def bind(ints, bools):
-    b = {}
+    b = {'iv': IV}
     for name, kind, slot in CFG['vars']:
         if kind == 'val':
             b[name] = pick(VALS, ints[slot])
@@ -198,8 +206,8 @@ def expected(b):
     order = []
     static_text = {}
     for n, v, q in CFG['static']:
-        final[n.lower()] = ('static', v)
-        static_text[n.lower()] = v
+        final[n.lower()] = ('static', static_value(v))
+        static_text[n.lower()] = static_value(v)
         order.append(n.lower())
     dict_decided = set()
     for n, var in CFG['entries']:
@@ -263,6 +271,13 @@ def known_excluded(b):
                 for en, var in CFG['entries']:
                     if en is not None and en.lower() == n.lower() and b[var] is not None \
                             and b[var] is not DEFAULT_MARKER and (n not in bool_set() or b[var]):
+                        return True
+    if 'default_over_interpolated_static' in ex:
+        # a named entry whose value is `default` for a static attribute that contains ${...}
+        for n, v, q in CFG['static']:
+            if v is not None and '${' in v:
+                for en, var in CFG['entries']:
+                    if en is not None and en.lower() == n.lower() and b[var] is DEFAULT_MARKER:
                         return True
     if 'dict_before_named_static' in ex:
         # an attribute dictionary that precedes (in the statement) a named entry for a *static* attribute
